@@ -200,6 +200,7 @@ class Tokenizer(object):
         """
         self.context = context
         self.state = Tokenizer.STATE_N
+        self._inName = False
         self._charBuffer = []
         self._tokBuffer = []
         if isinstance(source, str):
@@ -292,7 +293,10 @@ class Tokenizer(object):
                         code = whichCode(token)
 
             # Just go to the next character if you see one of these...
-            if code in (CC_IGNORED, CC_INVALID):
+            # (but not inside the name of a control sequence: there any
+            # non-letter ends a control word, and the first character
+            # after the escape names a control symbol whatever it is)
+            if code in (CC_IGNORED, CC_INVALID) and not self._inName:
                 continue
 
             yield (code, token)
@@ -363,6 +367,8 @@ class Tokenizer(object):
         CC_EOL = Token.CC_EOL
         CC_COMMENT = Token.CC_COMMENT
         CC_ACTIVE = Token.CC_ACTIVE
+        CC_IGNORED = Token.CC_IGNORED
+        CC_INVALID = Token.CC_INVALID
         prev = None
 
         while 1:
@@ -416,6 +422,7 @@ class Tokenizer(object):
 
                 # Get name of command sequence
                 self.state = STATE_M
+                self._inName = True
 
                 for (next_code, next_char) in charIter:
 
@@ -425,7 +432,10 @@ class Tokenizer(object):
                             if next_code_ == CC_LETTER:
                                 word.append(next_char_)
                             else:
-                                pushChar(next_char_)
+                                # An ignored character ends the word too,
+                                # and is dropped
+                                if next_code_ not in (CC_IGNORED, CC_INVALID):
+                                    pushChar(next_char_)
                                 break
                         token = EscapeSequence(''.join(word))
 
@@ -455,6 +465,8 @@ class Tokenizer(object):
                     break
 
                 else: token = EscapeSequence()
+
+                self._inName = False
 
                 # Check for any \let aliases
                 token = context.get_let(token)
